@@ -325,3 +325,99 @@ def gen_system(rng, max_entries=4, kinds=("lin", "lin", "off", "nonlin", "time",
         e["ivs"] = ivs
         e["single_iv"] = rng.random() < 0.7
     return system
+
+
+# ---------------------------------------------------------------------------------------
+# algebraically equivalent spellings of one canonical right-hand side (C04, C06)
+# ---------------------------------------------------------------------------------------
+
+def _mul_term(t, pows):
+    acc = {}
+    for a, e in t["pows"] + pows:
+        acc[tuple(a) if isinstance(a, list) else a] = acc.get(tuple(a) if isinstance(a, list) else a, 0) + e
+    return {"c": t["c"], "pows": [[list(a), e] for a, e in acc.items() if e != 0]}
+
+
+def float_coef_term_str(system, t, rng):
+    c = Fraction(t["c"])
+    sg, body = term_str(system, {"c": "1", "pows": t["pows"]}, 0)
+    f = float(abs(c))
+    fs = rng.choice(["%r" % f, "%.4f" % f, "%.3e" % f]) if Fraction(float("%.4f" % f)) == abs(c) and Fraction(float("%.3e" % f)) == abs(c) else "%r" % f
+    if body == "1":
+        body = fs
+    else:
+        body = fs + "*" + body
+    return ("-" if c < 0 else "+"), body
+
+
+def join_signed(parts):
+    out = ""
+    for k, (sg, body) in enumerate(parts):
+        if k == 0:
+            out += ("-" if sg == "-" else "") + body
+        else:
+            out += " %s %s" % (sg, body)
+    return out or "0"
+
+
+def spell(system, terms, style, rng):
+    """style 0..6 ; all mathematically equal to the canonical polynomial `terms`"""
+    terms = list(terms)
+    rng.shuffle(terms)
+    if not terms:
+        return "0"
+    if style in (0, 1, 2):
+        return rhs_str(system, terms, style)
+    if style == 3:      # common denominator over the parameters with negative exponents
+        mins = {}
+        for t in terms:
+            for a, e in t["pows"]:
+                if a[0] == "p" and e < 0:
+                    mins[tuple(a)] = min(mins.get(tuple(a), 0), e)
+        if not mins:
+            return "(" + rhs_str(system, terms, 0) + ")"
+        D = [[list(a), -e] for a, e in mins.items()]
+        num = [_mul_term(t, D) for t in terms]
+        den = "*".join(("%s**%d" % (atom_str(system, a), e)) if e != 1 else atom_str(system, a) for a, e in D)
+        return "(" + rhs_str(system, num, 0) + ")/(" + den + ")"
+    if style == 4:      # nested parentheses with a leading minus
+        if len(terms) < 2:
+            return "(((" + rhs_str(system, terms, 0) + ")))"
+        k = len(terms) // 2
+        neg = [{"c": str(-Fraction(t["c"])), "pows": t["pows"]} for t in terms[:k]]
+        return "-(" + rhs_str(system, neg, 0) + ") + ((" + rhs_str(system, terms[k:], 0) + "))"
+    if style == 5:      # float literals
+        return join_signed([float_coef_term_str(system, t, rng) for t in terms])
+    if style == 6:      # collect the terms linear in one state variable: x*(c1 + c2) + rest
+        groups, rest = {}, []
+        for t in terms:
+            vs = [(a, e) for a, e in t["pows"] if a[0] == "v"]
+            others = [(a, e) for a, e in t["pows"] if a[0] in ("t", "f")]
+            if len(vs) == 1 and vs[0][1] == 1 and not others:
+                groups.setdefault(vs[0][0][1], []).append({"c": t["c"], "pows": [[a, e] for a, e in t["pows"] if a[0] != "v"]})
+            else:
+                rest.append(t)
+        parts = []
+        for gi, cof in groups.items():
+            parts.append(("+", "%s*(%s)" % (var_name(system, gi), rhs_str(system, cof, 0))))
+        for t in rest:
+            parts.append(term_str(system, t, 0))
+        return join_signed(parts)
+    raise ValueError(style)
+
+
+def render_spelled(system, style, rng, entry_perm=None):
+    dyn = []
+    order = list(range(len(system["entries"]))) if entry_perm is None else list(entry_perm)
+    for i in order:
+        e = system["entries"][i]
+        if e["kind"] == "ode":
+            d = {"expression": "%s%s = %s" % (e["name"], "'" * e["order"], spell(system, e["rhs"], style, rng))}
+            if e["order"] == 1 and e.get("single_iv", True):
+                d["initial_value"] = e["ivs"][0]
+            else:
+                d["initial_values"] = {e["name"] + "'" * k: e["ivs"][k] for k in range(e["order"])}
+        else:
+            d = {"expression": "%s = %s" % (e["name"], e["fexpr"])}
+        dyn.append(d)
+    return {"dynamics": dyn}
